@@ -220,7 +220,18 @@ func vpC10_O4() {
 		el = &EventList{}
 		el.uncompress(NewEventList(evs...).compress())
 	}
+	far := vpBool("farIndices")
+	if far {
+		// indices as an untrusted sender can put them on the wire: shifted by 2^63
+		for _, ev := range el.Events {
+			ev.Index += 1 << 63
+		}
+	}
 	err := upd.Prepend(el)
+	if far {
+		vpAssert("an event list with far-away indices is refused with an error", err != nil && len(upd.Events) == len(oldEvents) && upd.Events[0] == oldFirst)
+		return
+	}
 	// the list handed in stays the caller's: nothing is written behind its end (where
 	// a later append by the caller would overwrite what the update now holds)
 	untouched := true
